@@ -276,10 +276,10 @@ const WORDS: [&str; 40] = [
 /// a one-segment index then feeds its sub aggregations by a full flush followed by a short one
 fn flush_boundary_size(rng: &mut Rng) -> usize {
     let over = match rng.below(7) {
-        0 | 1 => 1,
-        2 => 2,
-        3 => 3,
-        4 => rng.urange(4, 8),
+        0 | 1 | 2 => 1,
+        3 => 2,
+        4 => 3,
+        5 => rng.urange(4, 8),
         _ => rng.urange(1, 48),
     };
     *rng.pick(&[2048usize, 2048, 2048, 4096]) + over
